@@ -104,7 +104,8 @@ def _decode_fs(t, bs, ndisks, odd=True, links=True):
     if op == "symlink":
         return {"op": op, "disk": disk, "name": name_of(b, odd), "target": name_of(c, odd)}
     if op == "hardlink":
-        return {"op": op, "disk": disk, "fi": b, "name": name_of(c, odd)}
+        # relink: when the disk holds a symbolic link, one of them is replaced by the hard link (kind and target change in one step)
+        return {"op": op, "disk": disk, "fi": b, "name": name_of(c, odd), "relink": (seed >> 3) % 2 == 0, "li": seed >> 12}
     if op == "file_to_dir":
         return {"op": op, "disk": disk, "fi": b, "cseed": seed, "size": size_of(c, bs)}
     if op == "file_to_link":
